@@ -460,7 +460,9 @@ class DAE:
         Reset array sizes to zero and clear all arrays.
         """
 
-        self.set_t(0.0)
+        # `t = -1` is the pre-simulation time, as set at construction. Power flow models
+        # and `TDS.run` rely on `t < 0` to tell that dynamics have not been initialized.
+        self.set_t(-1.0)
         self.m = 0
         self.n = 0
         self.o = 0
